@@ -8,6 +8,7 @@ import json
 
 from harness import core, project as P
 from harness.common import pmap
+from harness import drive_testlog
 
 core.import_scoda()
 from scoda.exceptions.sequence_exception import SequenceException  # noqa: E402
@@ -315,6 +316,8 @@ def judge(ctx, obs):
 
 
 def nontrivial_key(o):
+    if o.get("kind") == "log":
+        return drive_testlog.nontrivial(o)
     if o.get("kind") == "conv":
         return ("conv", o["dir"], json.dumps(o["src"]))
     return (o["case"]["content"], o["case"]["start"]["a"], o["case"]["start"]["r"], tuple(o["case"]["ops"]), o["op"], len(o["turn"]))
@@ -344,12 +347,16 @@ def run_streamed(ctx, cases):
                         "step": o["op"], "post_rel": o["post"]["rel"][:6]} for o in obs if o.get("kind") == "step"][5:400:150]
         ctx.stream_add(zip(obs, ver), nontrivial_key, finding_key)
         del obs, ver, res
+    # the repository's whole test suite, every public Sequence call validated against the protocol
+    lobs, lver, lcov = drive_testlog.run(ctx)
+    ctx.stream_add(zip(lobs, lver), nontrivial_key, finding_key)
     return ctx.stream_finish(
         rule="paths of the labelled state graph written by TLC from SeqViews.tla (all paths <=3 from each of the 3 freshness "
              "states, plus seeded random paths of length 3-12), executed step by step on real objects holding one of 6 "
              "contents; conversion lines in both directions; processed in batches; non-trivial = distinct (content, start "
-             "state, history, step)",
-        samples=samples, extra_cov={"histories": len(ngrp), "histories_truncated_as_illegal": truncated})
+             "state, history, step); plus every outermost public Sequence call logged while the repository's own test "
+             "suite runs (Trace_SeqViewsLog)",
+        samples=samples, extra_cov=dict({"histories": len(ngrp), "histories_truncated_as_illegal": truncated}, **lcov))
 
 
 def run(ctx):
@@ -357,6 +364,10 @@ def run(ctx):
         o = json.load(open(ctx.replay))["observation"]
         g = ctx.generate("Gen_SeqViews", "Gen_SeqViews.cfg")[0]
         scripts = {x["op"]: x["script"] for x in g["scripts"]}
+        if o.get("kind") == "log":
+            lobs, lver, lcov = drive_testlog.run(ctx, replay_obs=o)
+            return ctx.finish(list(zip(lobs, lver)), rule="replay of one repository test under the call recorder",
+                              nontrivial=nontrivial_key, samples=[], finding_key=finding_key, extra_cov=lcov)
         if o.get("kind") == "conv":
             obs = conv_lines()
         else:
@@ -447,11 +458,13 @@ def run(ctx):
     dc = collections.Counter(o["op"] for o, v in zip(obs, ver) if v.get("drift") and not v.get("skipped"))
     ctx.notes["model_drift_by_op"] = dict(dc.most_common(8))
 
-    def nontrivial(o):
-        if o.get("kind") == "conv":
-            return ("conv", o["dir"], json.dumps(o["src"]))
-        return (o["case"]["content"], o["case"]["start"]["a"], o["case"]["start"]["r"], tuple(o["case"]["ops"]), o["op"],
-                len(o["turn"]))
+    nontrivial = nontrivial_key
+    lcov = {}
+    if not ctx.replay:
+        # the repository's own tests (a fast subset in the quick tier), every public Sequence call validated
+        lobs, lver, lcov = drive_testlog.run(ctx)
+        obs = obs + lobs
+        ver = ver + lver
 
     samples = [{"start": o["case"]["start"], "content": o["case"]["content"], "history": o["case"]["ops"],
                 "step": o["op"], "post_rel": o["post"]["rel"][:6]} for o in obs if o.get("kind") == "step"][5:400:150]
@@ -459,7 +472,9 @@ def run(ctx):
                       rule="paths of the labelled state graph written by TLC from SeqViews.tla (all paths <=2, thorough <=3, "
                            "from each of the 3 freshness states, plus seeded random paths of length 3-7 / 3-12), executed "
                            "step by step on real objects holding one of 5 contents; conversion lines in both directions; "
-                           "non-trivial = distinct (content, start state, history, step)",
+                           "non-trivial = distinct (content, start state, history, step); plus every outermost public "
+                           "Sequence call logged while a fast subset (thorough: all) of the repository's own tests runs, "
+                           "validated against the same protocol (Trace_SeqViewsLog)",
                       nontrivial=nontrivial, samples=samples, finding_key=finding_key,
-                      extra_cov={"histories": len(set(o["grp"] for o in obs)), "model_drift_steps": drift,
-                                 "histories_truncated_as_illegal": truncated})
+                      extra_cov=dict({"histories": len(set(o["grp"] for o in obs if o.get("kind") != "log")),
+                                      "model_drift_steps": drift, "histories_truncated_as_illegal": truncated}, **lcov))
